@@ -846,8 +846,18 @@ def check_public_faults(ctx: Ctx, res: Result):
     writes of the same rank are still in flight.  Property: wait() raises on EVERY rank, nobody hangs, no metadata."""
     from props import commit_common as cc
     rng = ctx.rng
-    for i in range(ctx.n(4, 20)):
-        wl = cc.make_workload(rng)
+    # designed workloads first: whether a write fails while a SIBLING write of the same rank is in flight in the
+    # background phase depends on the knobs (an I/O concurrency cap of 1, or a tight budget, serialises the writes), so the
+    # sweep does not leave that to the random draw: many unbatched entries on the failing rank, concurrency cap 2 / default
+    designed = [
+        {"W": 2, "batching": False, "chunk": None, "replicated": False, "conc": 2, "budget": None, "slab": None, "shared_len": 8,
+         "ranks": [{"priv": [3, 5, 2, 7, 4, 6], "extra_key": False, "prim": 1}, {"priv": [2, 2, 3], "extra_key": True, "prim": 2}]},
+        {"W": 3, "batching": False, "chunk": 16, "replicated": True, "conc": None, "budget": None, "slab": None, "shared_len": 20,
+         "ranks": [{"priv": [2, 9], "extra_key": False, "prim": 5}, {"priv": [4, 4, 4, 8, 1], "extra_key": False, "prim": 6},
+                   {"priv": [1], "extra_key": True, "prim": 7}]},
+    ]
+    for i in range(len(designed) + ctx.n(4, 20)):
+        wl = designed[i] if i < len(designed) else cc.make_workload(rng)
         if wl["W"] < 2:
             continue
         root = ctx.scratch("c13f")
@@ -859,7 +869,7 @@ def check_public_faults(ctx: Ctx, res: Result):
         counts = list(ref.nwrites)
         targets = [(r, n) for r in range(wl["W"]) for n in range(counts[r])]
         if not ctx.thorough and len(targets) > 5:
-            targets = rng.sample(targets, 5)
+            targets = rng.sample(targets, 5) if i >= len(designed) else [t for t in targets if t[0] == i % wl["W"]][:6]
         for (fr, fn_) in targets:
             for sched in (["fifo", "random"] if not ctx.thorough else ["fifo", "random", ("starve", fr), ("starve_others", fr)]):
                 root = ctx.scratch("c13f")
